@@ -101,6 +101,9 @@ def run_pass(world, pspec, vector):
         plan.setdefault((f["t"], f["i"]), {})[f["seam"]] = (f["n"], f["exc"])
     stats["faults_planned"] = sum(len(v) for v in plan.values())
 
+    reached: set = set()
+    if world.get("reach"):
+        _install_reach_probe(reached)
     gexp = snapshot.global_state()
     g0 = dict(gexp)
     serial_like = pspec["sched"]["kind"] in ("serial", "opgran")
@@ -130,7 +133,9 @@ def run_pass(world, pspec, vector):
         now = snapshot.global_state()
         for key in snapshot.state_diff(before, now):
             if key not in ("awkward.behavior", "_awkward_registered"):
-                viol.append(_viol("C20", "I1", f"global:{key}", site, pname, "changed by register_awkward()"))
+                # other ops may be in flight in an interleaved pass: then the culprit is not known yet
+                viol.append(_viol("C20", "I1", f"global:{key}", site if serial_like else "unattributed", pname,
+                                  "changed while register_awkward() ran"))
         if now["_awkward_registered"] is not True:
             viol.append(_viol("C20", "I1", "register:flag", site, pname, "flag not True after register_awkward()"))
         okeys = before["awkward.behavior"][1]
@@ -396,6 +401,7 @@ def run_pass(world, pspec, vector):
         "flt_calls": faults.counters.flt_calls,
     }
     out["raised_in_dispatch"] = sorted(rid)
+    out["variants"] = sorted(reached)
     if want_cells:
         out["cells"] = sorted(cells)
     if pspec.get("want_list"):
@@ -403,6 +409,24 @@ def run_pass(world, pspec, vector):
     if pspec.get("want_diag"):
         out["diag"] = {k_: v_ for k_, v_ in snapshot.vector_owned_state().items()}
     return out
+
+
+def _install_reach_probe(acc):
+    """Measure reach exactly: every dispatch() looks its variant up through _from_signature(name, map, signature);
+    in this (forked, throw-away) child that lookup is wrapped to record (module, signature)."""
+    import sys
+
+    import vector._methods as vm
+
+    orig = vm._from_signature
+
+    def probe(name, dispatch_map, signature):
+        acc.add(name.replace("vector._compute.", "") + ":" + ",".join(getattr(x, "__name__", str(x)) for x in signature))
+        return orig(name, dispatch_map, signature)
+
+    for mname, mod in list(sys.modules.items()):
+        if mname.startswith("vector._compute.") and getattr(mod, "_from_signature", None) is orig:
+            mod._from_signature = probe
 
 
 def _kind_of(x):
